@@ -13,6 +13,7 @@ Proofs/Compose*.lean).
 import SxVerif.Generated.CyclicGroups
 import SxVerif.Generated.Constants
 import SxVerif.Generated.Problems
+import SxVerif.Generated.Wiring
 import SxVerif.Spec.Gen
 import SxVerif.Proofs.GenCover
 import SxVerif.Props.C04
@@ -25,6 +26,12 @@ namespace SxVerif.C01
 open SxVerif.Gen SxVerif.Spec.Gen SxVerif.Generated SxVerif.Compose SxVerif.Spec.Compose
 
 theorem translator_clean : translatorProblems = [] := by decide
+
+/-- (T) a port scan with more than `chunkSize` ranges closes and re-opens its capture socket per chunk while
+    replies may still be arriving: the capture source is safe against that (`Props/C12.capture_source_safe_against_close`
+    has the details); without it the scan died with a SIGSEGV at a chunk boundary and the remaining chunks were
+    never probed -/
+theorem chunk_boundary_safe : readSafeAgainstClose = true := by decide
 
 /-- facts about `startPortScanEngine` regenerated from command/root.go: positive chunk size, and a
     scan without port ranges (ip/port pairs file) still runs one engine -/
